@@ -342,6 +342,10 @@ Lemma setwd_inv s owner addr ok s' : h_set_withdraw s owner addr ok = Ok s' ->
   ok = true /\ s' = set_wdaddr s (set owner addr (wdaddr s)).
 Proof. unfold h_set_withdraw. intros H. inv_ok H. auto. Qed.
 
+Lemma setwd_unblocked s owner addr ok s' : h_set_withdraw s owner addr ok = Ok s' ->
+  is_blocked addr = false.
+Proof. unfold h_set_withdraw. intros H. inv_ok H. now apply negb_true_iff. Qed.
+
 Lemma bind_inv cfg s svc prov dep pr qos owner ok s' :
   h_bind cfg s svc prov dep pr qos owner ok = Ok s' ->
   exists amt raw,
@@ -392,7 +396,7 @@ Proof.
   assert (Hcf : cframe s s1).
   { destruct (coins_empty dep); inv_ok Ha2; [subst; apply cframe_refl|]. eapply cf_pay_deposit; eauto. }
   assert (Hamt : 0 <= amt).
-  { destruct (coins_empty dep); inv_ok Ha0; [lia|]. apply one_base_coin_pos in Ha0. lia. }
+  { destruct (coins_empty dep); inv_ok Ha0; [lia|]. apply add_deposit_amt_pos in Ha0. lia. }
   destruct Hcf as [F1 F2 F3 F4 F5 F6 F7 F8 F9].
   exists b, amt, md. subst s'. sproj. b2p.
   rewrite ?F1, ?F2, ?F3, ?F4, ?F5, ?F6, ?F7, ?F8, ?F9. repeat split; auto.
